@@ -520,12 +520,18 @@ def _bracket_recorder(entity, body_event="child.run", continue_flag=False):
                 g[key] = nxt
             if m in ("eof", "rule_finished") and m != ("eof" if entity == "feature" else "rule_finished"):
                 g.setdefault("fmt.err", "wrong closing callback %s for %s" % (m, entity))
+            if m in ("eof", "rule_finished"):
+                g["told_finished"] = True
         elif k == "pop":
             if ev[1]:
                 g["pop_raised"] = True
         elif k == "setattr" and ev[3] == "_cached_status" and ev[1] == g.get("current_element"):
             v = ev[4]
             final = isinstance(v, EnumVal) and v.name != "untested"
+            if final and g.get("told_finished"):
+                # a formatter writes the element (its status included) when it is told that the element is finished
+                g.setdefault("fmt.err", "the %s's status is set to %s after the formatters were told that the %s is finished "
+                             "(a report written at that callback shows the old status)" % (entity, v.name, entity))
             g["cached_last"] = (g.get("phase", "before"), "final" if final else
                                 ("untested" if isinstance(v, EnumVal) else "computed"))
         elif k == "loopexit":
